@@ -38,6 +38,22 @@ def generate(rng, tier):
             q = "".join(tup)
             if "{" in q or "}" in q:
                 cases.append(Case("pat.new", [enc(q)], tag="compile-enum"))
+    # depth boundaries: nesting deeper than 255 / 256 / 1000 groups (a byte-sized depth counter would stick), balanced
+    # and unbalanced, and many groups side by side
+    for d in (254, 255, 256, 257, 1000):
+        deep = "{" * d + "foo,bar" + "}" * d + "-1.0"
+        cases.append(Case("pat.new", [enc(deep)], tag="depth"))
+        for nm in ("foo-1.0", "bar-1.0", "foo,bar-1.0", "baz-1.0"):
+            cases.append(Case("pat.match", [enc(deep), enc(nm)], tag="depth", meta={"groups": d}))
+        cases.append(Case("pat.new", [enc("{" * (d + 1) + "a" + "}" * d)], tag="depth"))
+        cases.append(Case("pat.new", [enc("{" * (d + 45) + "a" + "}" * 255)], tag="depth"))
+        cases.append(Case("pat.new", [enc("{" * d + "a" + "}" * (d + 1))], tag="depth"))
+    # '?' '*' and sets inside alternatives match whole characters, whatever their length in bytes
+    for p, nm in (("{a,b}-?.?", "b-\U0001F600.\U0001F600"), ("{xy,a}???", "a\u00e9\u00e9\u00e9"), ("{a,b}?", "a\u6f22"), ("{a,bb}[!x][!x]", "a\U0001F4E6\u00e9"),
+                  ("{a,b}-?.?", "b-1.2.3"), ("{a,b}??", "a\u00e9"), ("{a,b}?", "a\u00e9\u00e9"), ("{foo-[0-9,]x,bar-1}", "]x"), ("{foo-[0-9,]x,bar-1}", "foo-1x"),
+                  ("{foo-[0-9,]x,bar-1}", "foo-[0-9"), ("{a[,]b}", "a[b"), ("{a[,]b}", "]b"), ("{[a,b]}-1", "a-1")):
+        cases.append(Case("pat.new", [enc(p)], tag="chars"))
+        cases.append(Case("pat.match", [enc(p), enc(nm)], tag="chars", meta={"groups": 1}))
     for _ in range(n):
         t = pgen.tree(rng)
         p = pgen.tree_print(t)
